@@ -298,6 +298,21 @@ fn c03_core(ctx: &mut Ctx) {
             }
             let documented = refsem::arity_ok(op, n) == Some(true);
             let mut tuples: Vec<(Vec<Value>, bool)> = vec![(valid_tuple(op, n), true)];
+            // "tolerant" tuples: operands under which an implementation that ignored a surplus
+            // operand or invented a missing one would succeed (so that the error cannot come
+            // from somewhere else and hide a lenient operand count)
+            let fillers: [Vec<Value>; 7] = [
+                vec![json!(1), json!(2), json!(3), json!(4), json!(5), json!(6)],
+                vec![json!([1, 2]), json!([3]), json!([]), json!([4, 5]), json!([6]), json!([7])],
+                vec![json!("a"), json!("abc"), json!("b"), json!("c"), json!("d"), json!("e")],
+                vec![json!([1, 2]), json!({"var": "current"}), json!(0), json!(1), json!(2), json!(3)],
+                vec![json!([1, 2]), json!({"var": ""}), json!([]), json!(true), json!(1), json!(2)],
+                vec![json!("abc"), json!(1), json!(1), json!(1), json!(1), json!(1)],
+                vec![json!(1), json!(["a", "b"]), json!(1), json!("a"), json!(1), json!(1)],
+            ];
+            for f in fillers.iter() {
+                tuples.push((f.iter().take(n).cloned().collect(), false));
+            }
             for _ in 0..per_cell {
                 let t: Vec<Value> = (0..n)
                     .map(|_| loop {
